@@ -85,6 +85,62 @@ pub fn totality_texts(tier: Tier) -> Vec<(String, String)> {
             v.push((format!("literal:{}", t), wrap_f(&t)));
         }
     }
+    // ---- pairs of literals under every arithmetic operator (constant sub-expressions a detector may try to
+    //      evaluate: zero divisors, exact and inexact quotients, differences below zero, huge powers and shifts)
+    {
+        let small: Vec<String> = vec!["0", "00", "1", "2", "3", "60", "100", "86400", "255", "256", "0x0", "0x10", "0e0", "1e0", "1e1", "2e-1", "0.5", "1_0"]
+            .into_iter()
+            .map(|x| x.to_string())
+            .chain([pow(2, 128), pow(2, 256)])
+            .collect();
+        for l1 in &small {
+            for l2 in &small {
+                for t in [
+                    format!("x = {} / {} * x", l1, l2),
+                    format!("x = x * ({} / {})", l1, l2),
+                    format!("x = ({} / {}) * ({} / {})", l1, l2, l2, l1),
+                    format!("x = {} % {} * x", l1, l2),
+                    format!("x = x / ({} - {})", l1, l2),
+                    format!("x = x * {} ** {}", l1, l2),
+                    format!("x = x * ({} << {})", l1, l2),
+                    format!("x = x / ({} >> {})", l1, l2),
+                    format!("x /= {} * {}", l1, l2),
+                    format!("a[{} - {}] = a[{} / {}]", l1, l2, l1, l2),
+                    format!("address({} - {}) == msg.sender", l1, l2),
+                    format!("address({} * {}) != msg.sender", l1, l2),
+                ] {
+                    v.push((format!("literal-pair:{}", t), wrap_f(&t)));
+                }
+            }
+        }
+    }
+    // ---- cyclic structure: call graphs, inheritance, types and constants that refer back to themselves
+    for (n, t) in [
+        ("self-recursive-internal", "contract C { function _r(uint256 n) internal { if (n > 0) _r(n - 1); } function go() public { _r(3); } }\n"),
+        ("self-recursive-selfdestruct", "contract C { function _kill(address payable to) internal { _kill(to); selfdestruct(to); } function go() external { _kill(payable(msg.sender)); } }\n"),
+        ("mutual-recursion", "contract C { function _even(uint256 n) private returns (bool) { return n == 0 ? true : _odd(n - 1); } function _odd(uint256 n) private returns (bool) { return n == 0 ? false : _even(n - 1); } function go(uint256 n) public returns (bool) { return _even(n); } }\n"),
+        ("mutual-recursion-3", "contract C { function _a() internal { _b(); } function _b() internal { _c(); } function _c() internal { _a(); selfdestruct(payable(msg.sender)); } function go() public { _a(); } function go2() external { _c(); } }\n"),
+        ("public-self-recursive", "contract C { function f(uint256 n) public returns (uint256) { return n == 0 ? 1 : n * f(n - 1); } }\n"),
+        ("recursion-through-this", "contract C { function f(uint256 n) external { if (n > 0) this.f(n - 1); } function g() external { C(address(this)).g(); } }\n"),
+        ("recursion-through-modifier", "contract C { modifier m() { g(); _; } function g() public m { } function h() public m m m { g(); } }\n"),
+        ("free-recursion", "function fr(uint256 n) pure returns (uint256) { return n == 0 ? 0 : fr(n - 1) + gr(n); } function gr(uint256 n) pure returns (uint256) { return fr(n); } contract C { function go() public { fr(2); } }\n"),
+        ("ctor-recursion", "contract C { address owner; constructor() { _init(); } function _init() internal { owner = msg.sender; _init(); } }\n"),
+        ("overloads-calling-each-other", "contract C { function _t(uint256 a) internal { _t(a, 1); } function _t(uint256 a, uint256 b) internal { _t(a + b); } function go() public { _t(1); } }\n"),
+        ("inherit-self", "contract A is A { function f() public {} }\n"),
+        ("inherit-cycle", "contract A is B { function f() public { g(); } } contract B is A { function g() public { f(); } }\n"),
+        ("inherit-cycle-3", "contract A is B { uint128 a; uint256 b; uint128 c; } contract B is C { } contract C is A { constructor() { } }\n"),
+        ("struct-self", "struct S { S s; uint128 a; uint256 b; uint128 c; } contract C { struct T { T[] t; U u; } struct U { T t; } S s; }\n"),
+        ("constant-cycle", "uint256 constant A = B; uint256 constant B = A; contract C { uint256 x = x; uint256 immutable y = y + 1; }\n"),
+        ("using-cycle", "library L { using L for L.T; struct T { uint256 v; } function f(T storage t) internal { t.f(); } }\n"),
+        ("type-cycle", "type A is uint256; type B is uint256; using {fa} for A global; function fa(A a) pure returns (A) { return fa(a); }\n"),
+        ("mapping-self", "contract C { struct S { mapping(uint256 => S) next; } mapping(address => S) m; }\n"),
+        ("name-reuse", "contract C { function C() public { } uint256 f; function g(uint256 g) public returns (uint256 C) { C = g; f = g; } event g(uint256 g); error f(uint256 f); }\n"),
+        ("import-self", "import \"./self.sol\"; import {C} from \"./self.sol\"; contract C { }\n"),
+    ] {
+        v.push((format!("cycle:{}", n), format!("pragma solidity 0.8.19;\n{}", t)));
+        v.push((format!("cycle-0.4:{}", n), format!("pragma solidity ^0.4.24;\n{}", t)));
+        v.push((format!("cycle-nopragma:{}", n), t.to_string()));
+    }
     // ---- calls without arguments / unusual argument shapes
     for c in [
         "address()",
